@@ -4,6 +4,8 @@ import (
 	"encoding/json"
 	"fmt"
 	"strings"
+
+	saml2 "github.com/russellhaering/gosaml2"
 	"time"
 
 	"verif/idp"
@@ -47,11 +49,24 @@ func c07Spec(c c07Case, encrypted bool) idp.ResponseSpec {
 }
 
 func c07Exec(c c07Case) (keys []string, detail, class string) {
+	return c07ExecOn(c, nil)
+}
+
+// c07ExecOn judges the case on a fresh instance, or on live (one long-lived instance that is
+// reconfigured in place: clock, validation option and key store reassigned between calls).
+func c07ExecOn(c c07Case, live *saml2.SAMLServiceProvider) (keys []string, detail, class string) {
 	ck := c02Clocks[c.Clock]
 	conf := world.SPConf{Store: []string{"K2"}, ClockNs: int64(ck.Off), ValidateEncCert: c.Validate, EncCertState: c.CertState}
 	enc := idp.RenderResponse(c07Spec(c, true))
 	twin := idp.RenderResponse(c07Spec(c, false))
-	resp, r := validateResponse(conf.Build(), enc)
+	sp := conf.Build()
+	if live != nil {
+		live.Clock = sp.Clock
+		live.ValidateEncryptionCert = sp.ValidateEncryptionCert
+		live.SPKeyStore = sp.SPKeyStore
+		sp = live
+	}
+	resp, r := validateResponse(sp, enc)
 	tresp, tr := validateResponse(conf.Build(), twin)
 	detail = fmt.Sprintf("case=%+v clock=%s | encrypted: accepted=%v err=%q panic=%q | plaintext twin: accepted=%v err=%q", c, ck.Name, r.Accepted(), r.Err.Text, r.Panic, tr.Accepted(), tr.Err.Text)
 	if r.Panic != "" {
@@ -94,6 +109,10 @@ func c07Exec(c c07Case) (keys []string, detail, class string) {
 	return nil, detail, "twin-equal/rejected"
 }
 
+type c07History struct {
+	History []c07Case `json:"history"`
+}
+
 func c07Replay(raw json.RawMessage) ([]string, string) {
 	var probe struct {
 		Input string `json:"input"`
@@ -101,6 +120,19 @@ func c07Replay(raw json.RawMessage) ([]string, string) {
 	json.Unmarshal(raw, &probe)
 	if probe.Input != "" {
 		return attReplay("C07")(raw)
+	}
+	var h c07History
+	if json.Unmarshal(raw, &h) == nil && len(h.History) > 0 {
+		sp := world.SPConf{Store: []string{"K2"}}.Build()
+		var keys []string
+		var detail string
+		for _, c := range h.History {
+			keys, detail, _ = c07ExecOn(c, sp)
+		}
+		for i := range keys {
+			keys[i] = strings.Replace(keys[i], "C07/", "C07/reconfigured-instance/", 1)
+		}
+		return keys, detail
 	}
 	var c c07Case
 	if err := json.Unmarshal(raw, &c); err != nil {
@@ -138,6 +170,41 @@ func c07Run(r *mc.Run) {
 		}
 		for _, k := range keys {
 			r.Violation(k, detail, c)
+		}
+	})
+	// histories: for each (placement, recipient, algorithm) one live instance walks every
+	// (option, clock, certificate state) in sequence; a decision must follow the configuration
+	// in force at that call, not an earlier one (e.g. a cached key or certificate check)
+	groups := map[string][]c07Case{}
+	var order []string
+	for _, c := range cases {
+		k := fmt.Sprintf("%s/%s/%d", c.Placement, c.Recip, c.DataAlg)
+		if _, ok := groups[k]; !ok {
+			order = append(order, k)
+		}
+		groups[k] = append(groups[k], c)
+	}
+	r.Set("partB_reconfiguration_histories", len(order))
+	r.Par(len(order), func(i int) {
+		g := groups[order[i]]
+		// two orders: as enumerated (valid configuration first) and reversed
+		for pass := 0; pass < 2; pass++ {
+			seq := append([]c07Case(nil), g...)
+			if pass == 1 {
+				for a, b := 0, len(seq)-1; a < b; a, b = a+1, b-1 {
+					seq[a], seq[b] = seq[b], seq[a]
+				}
+			}
+			sp := world.SPConf{Store: []string{"K2"}}.Build()
+			for j, c := range seq {
+				keys, detail, _ := c07ExecOn(c, sp)
+				r.Eval(1)
+				r.Bucket("partB/history-step")
+				for _, k := range keys {
+					k = strings.Replace(k, "C07/", "C07/reconfigured-instance/", 1)
+					r.Violation(k, fmt.Sprintf("step %d of a history on one instance: %s", j, detail), c07History{History: seq[:j+1]})
+				}
+			}
 		}
 	})
 	attExplore(r, "C07")
